@@ -161,6 +161,18 @@ class Interp:
             if len(self.models) > 6: self.models.pop(0)
         s.pop(); self.nq += 1; self.tq += time.time() - t0
         if timeout is not None: s.set('timeout', self.qtimeout)
+        if r == z3.unknown:
+            # the incremental core gives up on non-linear real arithmetic more readily than the one-shot tactic: retry from scratch
+            r = self.fresh_check(cond, timeout)
+        return r
+    def fresh_check(self, cond=None, timeout=None):
+        fs = z3.Solver(); fs.set('timeout', timeout or self.qtimeout); fs.add(self.all_constraints())
+        if cond is not None: fs.add(cond)
+        t0 = time.time(); r = fs.check(); self.nq += 1; self.tq += time.time() - t0
+        if r == z3.sat:
+            try: self.models.append(fs.model())
+            except z3.Z3Exception: pass
+            if len(self.models) > 6: self.models.pop(0)
         return r
     def _model_says(self, cond):
         for m in self.models:
@@ -179,6 +191,14 @@ class Interp:
     def feasible(self, cond):
         if self._model_says(cond): return True
         return self.check(cond) != z3.unsat
+    def monitor_if(self, cond, kind, msg):
+        """raise the monitor when cond is satisfiable on this path; cond joins the path condition so that the reported model exhibits it"""
+        if not self._model_says(cond):
+            r = self.check(cond)
+            if r == z3.unknown: r = self.check(cond, timeout=4 * self.qtimeout)
+            if r == z3.unsat: return
+        self.add_pc(cond)
+        raise Monitor(kind, msg)
     def decide(self, cond):
         """branch on a symbolic condition: returns True/False, extending the path condition"""
         c = z3.simplify(cond)
@@ -209,8 +229,14 @@ class Interp:
             if r is None:
                 s = self._solver(); t0 = time.time(); st = s.check(); self.nq += 1; self.tq += time.time() - t0
                 if st == z3.unsat: raise Vacuous('no value left for ' + what)
-                if st != z3.sat: raise Unsupported('solver gave up while enumerating values of a symbolic ' + what)
-                m = s.model(); self.models.append(m); r = m.eval(e, model_completion=True).as_long()
+                if st != z3.sat:
+                    st = self.fresh_check()
+                    if st == z3.unsat: raise Vacuous('no value left for ' + what)
+                    if st != z3.sat: raise Unsupported('solver gave up while enumerating values of a symbolic ' + what)
+                    m = self.models[-1]
+                else:
+                    m = s.model(); self.models.append(m)
+                r = m.eval(e, model_completion=True).as_long()
             if self.decide(e == r): return r
             tried += 1
             if tried > 300: raise BoundExceeded('more than 300 values for a symbolic ' + what)
@@ -830,7 +856,7 @@ class Interp:
         if is_intmode(a, b):
             za = to_int(a, bits); zb = to_int(b, bits)
             if op in ('udiv', 'urem', 'sdiv', 'srem'):
-                if self.feasible(zb == 0): raise Monitor('int-div-zero', '%s by a value that can be zero in %s' % (op, fname))
+                self.monitor_if(zb == 0, 'int-div-zero', '%s by a value that can be zero in %s' % (op, fname))
                 # C semantics: truncation toward zero
                 if z3.is_int_value(zb):
                     # constant divisor: fresh quotient / remainder with linear defining constraints (C truncation)
@@ -861,7 +887,7 @@ class Interp:
             return sv(e())
         za = to_bv(a, bits); zb = to_bv(b, bits)
         if op in ('udiv', 'urem', 'sdiv', 'srem'):
-            if self.feasible(zb == 0): raise Monitor('int-div-zero', '%s by a value that can be zero in %s' % (op, fname))
+            self.monitor_if(zb == 0, 'int-div-zero', '%s by a value that can be zero in %s' % (op, fname))
         r = {'add': lambda: za + zb, 'sub': lambda: za - zb, 'mul': lambda: za * zb, 'and': lambda: za & zb, 'or': lambda: za | zb, 'xor': lambda: za ^ zb,
              'shl': lambda: za << zb, 'lshr': lambda: z3.LShR(za, zb), 'ashr': lambda: za >> zb, 'udiv': lambda: z3.UDiv(za, zb), 'urem': lambda: z3.URem(za, zb),
              'sdiv': lambda: za / zb, 'srem': lambda: z3.SRem(za, zb)}[op]()
@@ -992,8 +1018,7 @@ class Interp:
             lo, hi = (-(1 << (bits - 1)), (1 << (bits - 1)) - 1) if op == 'fptosi' else (0, (1 << bits) - 1)
             if isinstance(a, RV):
                 e = z3.simplify(a.expr())
-                if self.feasible(z3.Or(e <= lo - 1, e >= hi + 1)):
-                    raise Monitor('fp-to-int-overflow', 'conversion of an out-of-range double to %s in %s' % (ty, fname))
+                self.monitor_if(z3.Or(e <= lo - 1, e >= hi + 1), 'fp-to-int-overflow', 'conversion of an out-of-range double to %s in %s' % (ty, fname))
                 if z3.is_app_of(e, z3.Z3_OP_TO_REAL): return sv(e.arg(0))
                 # truncation toward zero
                 return sv(z3.If(e >= 0, z3.ToInt(e), -z3.ToInt(-e)))
